@@ -6,6 +6,8 @@ import Ivg.Gen.Tie.RendererFields
 import Ivg.Gen.Tie.Code.Clamp
 import Ivg.Gen.Tie.Code.Logger
 import Ivg.Gen.Tie.Code.Retarget
+import Ivg.Gen.Tie.Code.Ranges
+import Ivg.Gen.Tie.Code.GradAt
 import Ivg.Obligations
 /-!
 # C15 — gradient paints
@@ -647,4 +649,12 @@ end Ivg.Props.C15
   -- regenerated code (translator): SetRasterizer recomputes the transform from the current viewBox and the new rectangle
   Ivg.Gen.Tie.rectangle_Empty_code_tie,
   Ivg.Gen.Tie.renderer_SetRasterizer_code_tie,
-  Ivg.Gen.Tie.renderer_SetRasterizer_code_tie_frame]
+  Ivg.Gen.Tie.renderer_SetRasterizer_code_tie_frame,
+  -- regenerated code with loops/recursion (translator, fuel) = model, for all inputs and sufficient fuel: Ranges, GradAt
+  Ivg.Gen.Tie.appendRanges_code_tie,
+  Ivg.Gen.Tie.appendRanges_code_tie_nonempty,
+  Ivg.Gen.Tie.gradient_Init_code_tie,
+  Ivg.Gen.Tie.gradient_At_code_tie,
+  Ivg.Gen.Tie.gradient_At_code_tie_fits,
+  Ivg.Gen.Tie.gradient_Init_code_tie',
+  Ivg.Gen.Tie.renderer_initGradient_code_tie]
